@@ -4,11 +4,12 @@
     sumor -> OCaml types; fst/snd/andb/orb/negb inlined). Z / positive / nat stay Coq inductives. *)
 From Coq Require Extraction ExtrOcamlBasic.
 From Coq Require Import ZArith List.
-From CanVerif Require Import Socketcan.Wire Socketcan.WireSpec Socketcan.Receiver Socketcan.ReceiverSpec Socketcan.Transmitter Socketcan.Process.
+From CanVerif Require Import Socketcan.Wire Socketcan.WireSpec Socketcan.Receiver Socketcan.ReceiverSpec Socketcan.Transmitter Socketcan.Process Socketcan.ScanBuffer.
 Extraction Language OCaml.
 Extraction "model.ml"
   validate S_validb wf_frameb block16b transmit_bytes S_layout receive16 S_decode
   receive_calls spec_calls delivered chunks16 frame_event no_stallb
   transmit transmit_all
   receivers_run transmitters_run see see_tx addressed_to
+  geom0 prepare offered after_read
   Z.add Z.mul Z.sub Z.ltb Z.leb Z.eqb Z.of_nat Z.to_nat Z.pow Z.modulo Z.div.
